@@ -891,6 +891,10 @@ class C05(Spec):
         "accepts), screen loudspeakers within 5-25 or 35-60 degrees, azimuth order within each layer equal to the nominal order "
         "with neighbours at least %g degrees apart, no horizontal gap above %g degrees (property: < 180)" % (MIN_SEP_DEG, MAX_GAP_DEG),
         "mirror symmetry, side dominance and layer separation are checked on the ten nominal layouts only (as the property says)",
+        "fixed-seed corner catalogue (every loudspeaker at an inclusive end of its az/el range): the symmetric family is inside the "
+        "quantifier (hits tagged boundary-layout:<id>, not suppressed), the asymmetric families (#cornerA, #opp) are tagged "
+        "asymmetric-catalogue:<id>; every configured panner also gets a structural check: the vertex order of each QuadRegion / "
+        "VirtualNgon must be a simple polygon equal to the harness's own order by angle around the centre",
         "NOT proved: totality / side dominance / layer separation / symmetry of the composed panner (they depend on Qhull's "
         "facets covering the sphere for every admissible layout) - watched by the search",
     )
@@ -1060,7 +1064,7 @@ class C05(Spec):
             full = None if not ctx.quick else {c[0] for c in ctx.rng.sample(csym, min(8, len(csym))) + ctx.rng.sample(casym, min(12, len(casym)))}
             for fam, tag in ((csym, "boundary-layout:"), (casym, "asymmetric-catalogue:")):
                 for lid, name, real in fam:
-                    b = max(1500, per // 4) if full is None or lid in full else 0
+                    b = max(1500, per // (4 if ctx.quick else 6)) if full is None or lid in full else 0
                     tasks.append((lid, name, real, False, "%s/%d/%s" % (ctx.tier, ctx.seed, lid), b, max(100, fib // 4), tag + lid))
         for lid, calls, counts, hits, samples in run_pool(tasks, _search_task):
             for k, v in counts.items():
